@@ -252,6 +252,31 @@ func init() {
 			e.parkCurrent("goroutine parks forever (waits on something nobody will ever deliver)")
 			return nil, false
 		},
+		// vpSleepLong: the caller (a peer model) stays silent "for a long time": until a pending timer has
+		// fired; returns at once when no timer is pending (nobody is timing anything out)
+		"vpSleepLong": func(e *Engine, fr *Frame, args []Value) (Value, bool) {
+			st := e.st
+			pending := false
+			for _, r := range st.timers {
+				if !r.Fired && !r.Stopped {
+					pending = true
+				}
+			}
+			if st.curGor.sleeping {
+				if st.ghost["timers-fired"] > st.curGor.sleepBase || !pending {
+					st.curGor.sleeping = false
+					return nil, true
+				}
+			} else {
+				if !pending {
+					return nil, true
+				}
+				st.curGor.sleeping = true
+				st.curGor.sleepBase = st.ghost["timers-fired"]
+			}
+			e.blockCurrent("sleeping until a timeout expires")
+			return nil, false
+		},
 		// vpWaitProgress: block until some other goroutine has made progress, then return (the caller
 		// re-checks its condition in a loop); parks forever if nobody else can run.
 		"vpWaitProgress": func(e *Engine, fr *Frame, args []Value) (Value, bool) {
@@ -389,8 +414,16 @@ func init() {
 		"time.Sleep":        noop,
 		// timers are not modelled: a timer never fires within the explored step
 		"time.AfterFunc":        func(e *Engine, fr *Frame, args []Value) (Value, bool) { return Ptr{}, true },
-		"(*time.Timer).Stop":    func(e *Engine, fr *Frame, args []Value) (Value, bool) { return smt.False, true },
-		"(*time.Timer).Reset":   func(e *Engine, fr *Frame, args []Value) (Value, bool) { return smt.False, true },
+		"time.NewTimer": func(e *Engine, fr *Frame, args []Value) (Value, bool) { return e.newTimer(args[0], false), true },
+		"time.After":    func(e *Engine, fr *Frame, args []Value) (Value, bool) { return e.newTimer(args[0], true), true },
+		"(*time.Timer).Stop": func(e *Engine, fr *Frame, args []Value) (Value, bool) {
+			return smt.Bool(e.stopTimer(args[0])), true
+		},
+		"(*time.Timer).Reset": func(e *Engine, fr *Frame, args []Value) (Value, bool) {
+			active := e.stopTimer(args[0])
+			e.rearmTimer(args[0], args[1])
+			return smt.Bool(active), true
+		},
 		"runtime.Gosched":   noop,
 		"runtime.KeepAlive": noop,
 		"os.Exit": func(e *Engine, fr *Frame, args []Value) (Value, bool) {
